@@ -23,7 +23,7 @@ def run(ctx):
            ("HttpParseGen", "Gen_HttpParse_faults.cfg", dict(workers=4)),
            ("HttpParseGen", "Gen_HttpParse_delivery.cfg", dict(workers=4)),
            ("HttpParseGen", "Gen_HttpParse_sim.cfg", dict(workers=4, simulate="num=%d" % (150 if q else 3000), depth=40, name="gen-sim", timeout=1200))]
-    standard_pipeline(ctx, sub="parse", gen=gen, trace=TRACE, random_n=3000 if q else 60000, nontrivial=nontrivial,
+    standard_pipeline(ctx, checked=True, sub="parse", gen=gen, trace=TRACE, random_n=3000 if q else 60000, nontrivial=nontrivial,
                       dedupe_key=lambda s: json.dumps(s["req"], sort_keys=True), chunk=30000)
     return finish(ctx, rule=RULE, exhaustive=True,
                   assumptions=["only clearly malformed inputs are generated (no optional-whitespace variants, no obsolete line folding, no conflicting duplicate Content-Length)",
